@@ -129,29 +129,77 @@ def ResponseTruncationFull : Prop :=
     k < (writeResponses rs).length →
     specTruncated (obsOf (readResponses limit ((writeResponses rs).take k) cuts)) = true
 
-/-- what a strict prefix of a written response stream reads as, exactly: the frames that are
-    complete — an error if there is none, otherwise that non-empty strict prefix of the list -/
-theorem response_truncation_exact (rs : List HeaderResponse) (k limit : Nat) (cuts : List Nat)
+/-- lengths of the frames of a written response stream -/
+def respFrameLens (rs : List HeaderResponse) : List Nat := frameLens encodeResponse rs
+
+theorem respFrameLens_sum (rs : List HeaderResponse) : (respFrameLens rs).sum = (writeResponses rs).length := by
+  rw [writeResponses_eq, wireOf_length]; rfl
+
+/-- what a strict prefix of a written response stream reads as under ANY chunk schedule (premature EOF
+    included) and any limit: if the reader got `m` bytes (`m ≤ min k limit`), exactly the responses whose
+    frames lie completely within those `m` bytes — an error when not even the first one does -/
+theorem response_truncation_any_schedule (rs : List HeaderResponse) (k limit : Nat) (cuts : List Nat)
     (hv : ∀ r ∈ rs, ValidResp r) (hk : k < (writeResponses rs).length) :
-    ∃ j, j < rs.length ∧
-      readResponses limit ((writeResponses rs).take k) cuts = if j = 0 then none else some (rs.take j) := by
-  obtain ⟨k', _, he⟩ := chunking_prefix limit ((writeResponses rs).take k) cuts
+    ∃ m, m ≤ min k limit ∧
+      readResponses limit ((writeResponses rs).take k) cuts =
+        if completeCount (respFrameLens rs) m = 0 then none
+        else some (rs.take (completeCount (respFrameLens rs) m)) := by
+  obtain ⟨k', hk', he⟩ := chunking_prefix limit ((writeResponses rs).take k) cuts
+  refine ⟨min k' k, by omega, ?_⟩
   unfold readResponses readResponsesOf
   rw [he, List.take_take, writeResponses_eq]
   rw [writeResponses_eq] at hk
   exact result_of_take encodeResponse decodeResponse rs (min k' k) (valid_frames rs hv) (by omega)
+
+/-- **exactly the complete frames before the cut**: with chunks of positive size, the first `k` bytes of a
+    written response stream (`k` < its length) read back as exactly the responses whose frames end within
+    the first `min k limit` bytes; an error if there is none.  (`specTruncatedExact` ties the number of
+    responses returned to the cut position through the frame lengths.) -/
+theorem response_truncation_exact (rs : List HeaderResponse) (k limit : Nat) (cuts : List Nat)
+    (hv : ∀ r ∈ rs, ValidResp r) (hk : k < (writeResponses rs).length) (hc : ∀ c ∈ cuts, 0 < c) :
+    specTruncatedExact (respFrameLens rs) rs (min k limit)
+      (obsOf (readResponses limit ((writeResponses rs).take k) cuts)) = true := by
+  have h2 : readResponses limit ((writeResponses rs).take k) cuts =
+      if completeCount (respFrameLens rs) (min limit k) = 0 then none
+      else some (rs.take (completeCount (respFrameLens rs) (min limit k))) := by
+    unfold readResponses readResponsesOf
+    rw [chunking_irrelevant _ _ _ hc, List.take_take, writeResponses_eq]
+    rw [writeResponses_eq] at hk
+    exact result_of_take encodeResponse decodeResponse rs (min limit k) (valid_frames rs hv) (by omega)
+  rw [h2, Nat.min_comm k limit]
+  unfold specTruncatedExact
+  simp only
+  split <;> simp [obsOf]
+
+/-- **a cut inside the first frame is an error** — the part of "truncated streams yield an error" that
+    holds: any list, any limit, any chunk schedule -/
+theorem response_truncation_first_frame (r : HeaderResponse) (rest : List HeaderResponse) (k limit : Nat)
+    (cuts : List Nat) (hv : ∀ x ∈ r :: rest, ValidResp x)
+    (hk : k < (lengthDelimited (encodeResponse r)).length) :
+    readResponses limit ((writeResponses (r :: rest)).take k) cuts = none := by
+  have hk' : k < (writeResponses (r :: rest)).length := by
+    rw [writeResponses_eq, wireOf_cons, List.length_append]; omega
+  obtain ⟨m, hm, he⟩ := response_truncation_any_schedule (r :: rest) k limit cuts hv hk'
+  rw [he]
+  have : completeCount (respFrameLens (r :: rest)) m = 0 := by
+    simp only [respFrameLens, frameLens, List.map_cons, completeCount]
+    rw [if_neg (by omega)]
+  simp [this]
 
 /-- **truncated response streams**: an error, or a non-empty strict prefix of the list that was
     written — never a value that was not sent.  Partial: the property demands an error always. -/
 theorem response_truncation_partial (rs : List HeaderResponse) (k limit : Nat) (cuts : List Nat)
     (hv : ∀ r ∈ rs, ValidResp r) (hk : k < (writeResponses rs).length) :
     specTruncatedWeak rs (obsOf (readResponses limit ((writeResponses rs).take k) cuts)) = true := by
-  obtain ⟨j, hj, he⟩ := response_truncation_exact rs k limit cuts hv hk
+  obtain ⟨m, hm, he⟩ := response_truncation_any_schedule rs k limit cuts hv hk
   rw [he]
-  by_cases hj0 : j = 0
+  have hj : completeCount (respFrameLens rs) m < rs.length := by
+    rw [writeResponses_eq] at hk
+    exact completeCount_lt encodeResponse rs m (by omega)
+  by_cases hj0 : completeCount (respFrameLens rs) m = 0
   · simp [hj0, obsOf, specTruncatedWeak]
   · simp only [hj0, ↓reduceIte, obsOf, specTruncatedWeak, List.length_take]
-    have : min j rs.length = j := by omega
+    have : min (completeCount (respFrameLens rs) m) rs.length = completeCount (respFrameLens rs) m := by omega
     simp [this, hj]
     omega
 
@@ -162,24 +210,42 @@ theorem response_truncation_counterexample : ¬ ResponseTruncationFull := by
   revert this
   decide
 
-/-- a response list that does not fit the limit is still never read as a wrong value: an error or
-    a strict prefix of the list -/
+/-- a response list that does NOT fit the limit, read with chunks of positive size: exactly the responses
+    whose frames end within the first `limit` bytes (an error if not even the first one does) -/
+theorem responses_over_limit_exact (rs : List HeaderResponse) (limit : Nat) (cuts : List Nat)
+    (hv : ∀ r ∈ rs, ValidResp r) (hbig : limit < (writeResponses rs).length) (hc : ∀ c ∈ cuts, 0 < c) :
+    specTruncatedExact (respFrameLens rs) rs limit (obsOf (readResponses limit (writeResponses rs) cuts)) = true := by
+  have h2 : readResponses limit (writeResponses rs) cuts =
+      if completeCount (respFrameLens rs) limit = 0 then none
+      else some (rs.take (completeCount (respFrameLens rs) limit)) := by
+    unfold readResponses readResponsesOf
+    rw [chunking_irrelevant _ _ _ hc, writeResponses_eq]
+    rw [writeResponses_eq] at hbig
+    exact result_of_take encodeResponse decodeResponse rs limit (valid_frames rs hv) hbig
+  rw [h2]
+  unfold specTruncatedExact
+  simp only
+  split <;> simp [obsOf]
+
+/-- … and under any chunk schedule never a wrong value: an error or a strict prefix of the list -/
 theorem responses_over_limit (rs : List HeaderResponse) (limit : Nat) (cuts : List Nat)
     (hv : ∀ r ∈ rs, ValidResp r) (hbig : limit < (writeResponses rs).length) :
     specTruncatedWeak rs (obsOf (readResponses limit (writeResponses rs) cuts)) = true := by
   obtain ⟨k', hk', he⟩ := chunking_prefix limit (writeResponses rs) cuts
-  have hex : ∃ j, j < rs.length ∧
-      readResponses limit (writeResponses rs) cuts = if j = 0 then none else some (rs.take j) := by
+  have hex : readResponses limit (writeResponses rs) cuts =
+      if completeCount (respFrameLens rs) k' = 0 then none else some (rs.take (completeCount (respFrameLens rs) k')) := by
     unfold readResponses readResponsesOf
     rw [he, writeResponses_eq]
     rw [writeResponses_eq] at hbig
     exact result_of_take encodeResponse decodeResponse rs k' (valid_frames rs hv) (by omega)
-  obtain ⟨j, hj, he⟩ := hex
-  rw [he]
-  by_cases hj0 : j = 0
+  rw [hex]
+  have hj : completeCount (respFrameLens rs) k' < rs.length := by
+    rw [writeResponses_eq] at hbig
+    exact completeCount_lt encodeResponse rs k' (by omega)
+  by_cases hj0 : completeCount (respFrameLens rs) k' = 0
   · simp [hj0, obsOf, specTruncatedWeak]
   · simp only [hj0, ↓reduceIte, obsOf, specTruncatedWeak, List.length_take]
-    have : min j rs.length = j := by omega
+    have : min (completeCount (respFrameLens rs) k') rs.length = completeCount (respFrameLens rs) k' := by omega
     simp [this, hj]
     omega
 
@@ -231,5 +297,6 @@ theorem garbage_responses (limit : Nat) (data : Bytes) (cuts : List Nat) :
 example : ValidReq ⟨64, .hash (List.replicate 32 7)⟩ ∧ ValidResp ⟨[1, 2, 3], 1⟩ ∧ ValidResp ⟨[], -1⟩ := by
   refine ⟨⟨by decide, by simp⟩, ⟨by simp, by decide, by decide⟩, ⟨by simp, by decide, by decide⟩⟩
 example : readResponses 100 ((writeResponses [⟨[9], 1⟩, ⟨[8], 2⟩]).take 7) [1, 2] = some [⟨[9], 1⟩] := by decide
+example : respFrameLens [⟨[9], 1⟩, ⟨[8], 2⟩] = [6, 6] ∧ completeCount [6, 6] 7 = 1 ∧ completeCount [6, 6] 5 = 0 := by decide
 
 end Lumina.Props.C30
